@@ -32,7 +32,8 @@ type TimeoutCase struct {
 	Method string `json:"method,omitempty"` // Echo (unary, default) | Bidi (streaming)
 	Value  string `json:"value"`            // header value, verbatim
 	Class  string `json:"class"`
-	Opts   Opts   `json:"opts"` // mux options installed (see opts15.go)
+	Opts   Opts   `json:"opts"`             // mux options installed (see opts15.go)
+	Target string `json:"target,omitempty"` // "" (local service) | proxy (RegisterConn to a real grpc.Server)
 }
 
 var legalTimeout = regexp.MustCompile(`^[0-9]{1,8}[HMSmun]$`)
@@ -118,6 +119,7 @@ type dlRec struct {
 
 type dlSvc struct {
 	std   *svc.Std
+	be    *backend // lazily started back-end of the proxied target
 	muMux sync.Mutex
 	muxes map[string]*larking.Mux
 	recs  sync.Map // id -> *dlRec
@@ -130,22 +132,57 @@ func newDLSvc() (*dlSvc, error) {
 		return nil, err
 	}
 	s := &dlSvc{std: std, muxes: map[string]*larking.Mux{}}
-	_, err = s.muxFor(Opts{})
+	_, err = s.muxFor("", Opts{})
 	return s, err
 }
 
-func (s *dlSvc) muxFor(o Opts) (*larking.Mux, error) {
+func (s *dlSvc) muxFor(target string, o Opts) (*larking.Mux, error) {
 	s.muMux.Lock()
 	defer s.muMux.Unlock()
-	if m := s.muxes[o.key()]; m != nil {
+	k := target + "|" + o.key()
+	if m := s.muxes[k]; m != nil {
 		return m, nil
 	}
-	m, err := newMux(s.std, s.unary, s.stream, c15MuxOptions(o)...)
+	var m *larking.Mux
+	var err error
+	if target == "proxy" {
+		if s.be == nil {
+			if s.be, err = startBackend(s.std, s.beUnary, s.beStream); err != nil {
+				return nil, err
+			}
+		}
+		m, err = s.be.newProxyMux(c15MuxOptions(o)...)
+	} else {
+		m, err = newMux(s.std, s.unary, s.stream, c15MuxOptions(o)...)
+	}
 	if err != nil {
 		return nil, err
 	}
-	s.muxes[o.key()] = m
+	s.muxes[k] = m
 	return m, nil
+}
+
+func (s *dlSvc) Close() {
+	s.muMux.Lock()
+	defer s.muMux.Unlock()
+	if s.be != nil {
+		s.be.Close()
+	}
+}
+
+// back-end handlers of the proxied target
+func (s *dlSvc) beUnary(ctx context.Context, md protoreflect.MethodDescriptor, dec func(interface{}) error, _ grpc.UnaryServerInterceptor) (interface{}, error) {
+	s.observe(ctx, "backend", true)
+	in := newChunk()
+	if err := dec(in); err != nil {
+		return nil, err
+	}
+	return in, nil
+}
+
+func (s *dlSvc) beStream(md protoreflect.MethodDescriptor, ss grpc.ServerStream) error {
+	s.observe(ss.Context(), "backend", true)
+	return status.Error(codes.Unimplemented, "not used")
 }
 
 func (s *dlSvc) observe(ctx context.Context, where string, first bool) {
@@ -207,7 +244,7 @@ func (s *dlSvc) execTimeout(c *TimeoutCase) (vs []viol, shape string, notes []st
 	if c.Method == "Bidi" {
 		method, frame = "Bidi", nil
 	}
-	mux, err := s.muxFor(c.Opts)
+	mux, err := s.muxFor(c.Target, c.Opts)
 	if err != nil {
 		notes = append(notes, "mux-setup-failed")
 		return vs, "", notes
@@ -221,7 +258,11 @@ func (s *dlSvc) execTimeout(c *TimeoutCase) (vs []viol, shape string, notes []st
 	resp := wire.Serve(mux, req)
 	tRet := time.Now()
 
-	add := func(k, w string) { vs = append(vs, viol{c.Proto + ":" + k, w}) }
+	pfx := c.Proto
+	if c.Target != "" {
+		pfx = c.Target + "/" + c.Proto
+	}
+	add := func(k, w string) { vs = append(vs, viol{pfx + ":" + k, w}) }
 	if resp.Wedged {
 		// all input comes from memory: a wedge is reported, with its dump, by
 		// C09; here nothing could be observed
@@ -243,6 +284,9 @@ func (s *dlSvc) execTimeout(c *TimeoutCase) (vs []viol, shape string, notes []st
 		has, deadline, ctxErr = obs[0].has, obs[0].deadline, obs[0].ctxErr
 	}
 	shapeSfx := "/" + method + "/" + c.Opts.key()
+	if c.Target != "" {
+		shapeSfx += "/" + c.Target
+	}
 
 	gcode, _, _, gok := resp.GRPCStatus()
 	if c.Proto == "web" && !gok {
@@ -267,6 +311,14 @@ func (s *dlSvc) execTimeout(c *TimeoutCase) (vs []viol, shape string, notes []st
 			sfx += ":overflow"
 		}
 		desc := fmt.Sprintf("grpc-timeout %q", c.Value)
+		if c.Target == "proxy" && entered == 0 && (far || tRet.Sub(t0) < T) {
+			add("legal-timeout:backend-not-invoked:"+sfx, fmt.Sprintf("%s: the back-end handler was not invoked although the call returned %v after it started (HTTP %d)", desc, tRet.Sub(t0), resp.Code))
+			return vs, "", notes
+		}
+		if c.Target == "proxy" && entered == 0 {
+			notes = append(notes, "proxy-expired-before-backend")
+			return vs, "", notes
+		}
 		if entered != 1 {
 			add("legal-timeout:handler-invocations:"+sfx, fmt.Sprintf("%s: method handler invoked %d times (HTTP %d)", desc, entered, resp.Code))
 			return vs, "", notes
@@ -293,7 +345,13 @@ func (s *dlSvc) execTimeout(c *TimeoutCase) (vs []viol, shape string, notes []st
 			if lo := o.deadline.Sub(t0); lo < T {
 				add("deadline-early:"+at+":"+sfx, fmt.Sprintf("%s: deadline at the %s %v after the call started, want >= %v", desc, o.where, lo, T))
 			}
-			if hi := o.deadline.Sub(o.tEntry); hi > T {
+			slack := time.Duration(0)
+			if o.where == "backend" {
+				// grpc-go sends the remaining time rounded up to the unit in
+				// which it fits 8 digits: less than T/100000 (+1 us)
+				slack = T/50000 + time.Microsecond
+			}
+			if hi := o.deadline.Sub(o.tEntry); hi > T+slack {
 				add("deadline-late:"+at+":"+sfx, fmt.Sprintf("%s: deadline %v after the %s was entered, want <= %v", desc, hi, o.where, T))
 			}
 		}
@@ -525,6 +583,7 @@ func runTimeouts(r *mon.Run) {
 		r.Inconclusive("timeout service setup: " + err.Error())
 		return
 	}
+	defer s.Close()
 	rng := r.Rand("c15-timeouts")
 	masks := c15Masks()
 	// masksFor: quick = all-off, all-on and one of the remaining masks in
@@ -590,6 +649,29 @@ func runTimeouts(r *mon.Run) {
 	for _, p := range []string{"grpc", "web"} {
 		jobs = append(jobs, job{TimeoutCase{Part: "timeout", Proto: p, Method: "Echo", Value: "", Class: "absent"}, masks})
 	}
+	// the same through RegisterConn: the deadline must reach the back-end
+	// handler (grpc-go carries the remaining time)
+	prng := r.Rand("c15-timeouts-proxy")
+	addp := func(proto, method, v string, ms []Opts) {
+		jobs = append(jobs, job{TimeoutCase{Part: "timeout", Target: "proxy", Proto: proto, Method: method, Value: v, Class: classifyTimeout(v)}, ms})
+	}
+	pm := []Opts{masks[0], masks[7]}
+	if r.Thorough() {
+		pm = masks
+	}
+	for i, v := range quickLegal() {
+		addp([]string{"grpc", "web"}[i%2], []string{"Echo", "Bidi"}[(i/2)%2], v, pm)
+	}
+	for i, n := 0, r.Pick(300, 20000); i < n; i++ {
+		addp([]string{"grpc", "grpc", "web"}[i%3], []string{"Echo", "Bidi"}[i%2], randLegal(prng), []Opts{masks[i%len(masks)]})
+	}
+	for i, n := 0, r.Pick(200, 4000); i < n; i++ {
+		v := randMalformed(prng)
+		if c := classifyTimeout(v); c == "legal" || c == "absent" {
+			continue
+		}
+		addp([]string{"grpc", "web"}[i%2], []string{"Echo", "Bidi"}[(i/2)%2], v, []Opts{masks[i%len(masks)]})
+	}
 
 	var wg sync.WaitGroup
 	workers := 8
@@ -616,6 +698,7 @@ func replayTimeout(r *mon.Run, c *TimeoutCase) {
 		r.Inconclusive("timeout service setup: " + err.Error())
 		return
 	}
+	defer s.Close()
 	c.Class = classifyTimeout(c.Value)
 	if c.Method == "" {
 		c.Method = "Echo"
